@@ -23,56 +23,87 @@ from .common import find_node, indent_of, rule
 PROP = "C12"
 READY = False
 TECHNIQUE = (
-    "path counting and finite path enumeration (nullness of lookup results, registry-miss marks, link-text taint) over the "
-    "CFGs of the Sphinx link handlers and the reference resolver; role/kind inference at make_refnode/docname_join sites; "
-    "writer/reader attribute agreement of 'myst' pending_xref nodes"
+    "path counting and finite path enumeration (nullness of lookup results, registry-miss and unverified-id marks, membership "
+    "correlation, link-text taint, empty-string propagation; conditional expressions and hoisted flags are branches; private "
+    "helpers are summarised or inlined) over the CFGs of the Sphinx link handlers, the reference resolver and the slug "
+    "uniquifier; flow-sensitive role/kind inference (from/to docname, '#'-part, percent-decoding, letter case) at registry "
+    "look-ups and Sphinx API calls; writer/reader attribute agreement of 'myst' pending_xref nodes"
 )
 
 META = {
     "explanation": (
-        "R1: in SphinxRenderer.render_link_unknown/project/path and the dispatcher DocutilsRenderer.render_link every normal "
-        "path hands the link to exactly one sink (one freshly created pending_xref/download_reference passed to "
-        "_process_wrap_node, or one delegation to another render_link_* handler); _process_wrap_node attaches the wrap node "
-        "once, the inner node once, and renders the token's children exactly when the text is explicit. "
-        "R2: in MystReferenceResolver.run every pending_xref with reftype 'myst' is replaced exactly once on every path "
-        "(helper methods are summarised; resolve_myst_ref_doc is judged per exit). "
-        "R3: a finite path enumeration (abstract nullness of 'may return None' lookups, marks for registry misses, taint of "
-        "the link-text subtree) shows that resolver paths on which resolution failed pass exactly one XREF_MISSING warning "
-        "that names the target, all other paths pass none, the replacement node contains the original text subtree "
-        "unless the implicit-text branch was taken, and no path replaces the link by a node whose only text is the "
-        "constant \"\" (constant propagation of empty strings into node constructors); a path on which make_refnode receives "
-        "the *requested* fragment (node['reftargetid']) as target id instead of an id found in a registry counts as failed "
-        "(so it needs its one warning); helpers that issue the warning themselves are summarised; in the renderer a failed path2doc lookup that gives up to "
-        "render_link_url passes exactly one XREF_MISSING warning and paths that create a wrap node pass none. "
-        "R4: at every make_refnode / docname_join / resolve_(any_)xref call the 'from' slot derives from refdoc (or the "
-        "current docname) and the 'to' slot from reftarget or a registry docname, traced through locals, tuple unpacking and "
-        "parameters. R5: every attribute the resolver subscripts on a 'myst' pending_xref is set by every constructor call "
-        "with the matching refdomain; for refdomain='doc' reftarget derives from path2doc and reftargetid from the part "
-        "after '#'; relfn2path receives the part before '#'; a non-doc reference keeps the whole destination (fragment "
-        "included); every href-derived value that reaches reftarget/reftargetid/relfn2path has passed normalizeLinkText "
-        "(flow-sensitive reaching definitions), because markdown-it percent-encodes hrefs and the registries are keyed by decoded text. "
-        "R3 also: log_warning leaves without emitting only after a nitpick_ignore(_regex) match for the target. "
-        "R6: the 'path:'/'project:' scheme is removed from a destination by an exact prefix removal (slice offset equals the length of the "
-        "prefix tested by the guarding startswith(); no character-set strip containing name characters). "
-        "R7: the table of document-local targets that ResolveAnchorIds consults before handing a '#name' link to project-wide "
-        "resolution is filled only under a truthy document.nametypes value (explicit targets), as Sphinx's StandardDomain.process_doc does."
+        "Nine rule families over the syntax trees/CFGs of mdit_to_docutils/sphinx_.py, base.py (render_link, slug registry), "
+        "transforms.py (ResolveAnchorIds) and sphinx_ext/myst_refs.py. "
+        "R1 classification: in SphinxRenderer.render_link_unknown/project/path and the dispatcher DocutilsRenderer.render_link "
+        "(also when it dispatches through a class-level table of handler names with getattr) every normal path hands the link "
+        "to exactly one sink - one freshly constructed pending_xref/download_reference given to _process_wrap_node, or one "
+        "delegation to another render_link_* handler; private helpers are summarised; _process_wrap_node attaches the wrap "
+        "node once, the inner node once, and renders the token's children beneath the inner node exactly when the text is "
+        "explicit; in a handler that can also hand the link to project-wide resolution, the download (local non-document "
+        "file) outcome is only reached under a regular-file test (is_file/isfile, followed through locals, the guards of their "
+        "bindings and predicate helpers) - an existence test alone is a violation. "
+        "R2 resolver totality: in MystReferenceResolver.run every pending_xref with reftype 'myst' is replaced exactly once "
+        "on every path (helpers summarised, delegates such as resolve_myst_ref_doc judged per exit). "
+        "R3 exactly one warning: a finite path enumeration with an abstract state - nullness of 'may answer None' lookups, "
+        "marks for registry misses (env.all_docs, the myst_slugs mapping) and for a *requested* fragment "
+        "(node['reftargetid']) that reaches make_refnode as target id without having been found in a registry, remembered "
+        "membership tests, hoisted boolean flags, conditional-expression assignments as branches, taint of the link-text "
+        "subtree, constant propagation of the empty string into node constructors - shows that resolver paths on which "
+        "resolution failed pass exactly one XREF_MISSING warning, all other paths none, that the replacement contains the "
+        "original text subtree unless the implicit-text branch was taken, and that no path inserts a reference whose only "
+        "text is the constant \"\". Helpers that warn are summarised (uniform count) or inlined with the caller's facts "
+        "(two levels). Each XREF_MISSING log_warning interpolates its own target. log_warning itself leaves without emitting "
+        "only after a nitpick_ignore / nitpick_ignore_regex match (followed through flags and one helper level). In the "
+        "renderer a failed path2doc lookup that gives up to render_link_url passes exactly one XREF_MISSING warning and paths "
+        "that create a wrap node pass none. "
+        "R4 roles: at every make_refnode / docname_join / Domain.resolve_(any_)xref call the 'from' slot derives from refdoc "
+        "(or the current docname) and the 'to'/'target' slot from reftarget or a registry docname, traced through locals, "
+        "tuple unpacking and parameters over the call graph; the refdoc a writer stores is the current docname. "
+        "R5 writer/reader agreement: every attribute the resolver *subscripts* on a 'myst' pending_xref (not .get, not under "
+        "a statement- or expression-level `'k' in node` guard), split by the refdomain == 'doc' context, is set by every "
+        "constructor call with the matching refdomain (keyword dict literals expanded); for refdomain='doc' reftarget derives "
+        "from path2doc and reftargetid is the part after '#' (split / partition / star-target idioms, NamedTuple- or "
+        "tuple-returning split helpers followed); relfn2path receives the part before '#' and the current docname; a non-doc "
+        "reference keeps the whole destination; every href-derived value that reaches reftarget / reftargetid / relfn2path "
+        "has passed normalizeLinkText (flow-sensitive reaching definitions) because markdown-it percent-encodes hrefs while "
+        "the registries are keyed by decoded text. "
+        "R6 scheme removal: 'path:' / 'project:' are removed from a destination by an exact prefix removal (slice offset = "
+        "length of the prefix tested by the guarding startswith(), or removeprefix); a character-set strip containing name "
+        "characters is a violation. "
+        "R7 local '#' table: the table of document-local targets that ResolveAnchorIds consults before handing a '#name' link "
+        "to project-wide resolution - also when it is built in a helper or a dict comprehension - is filled only under a "
+        "truthy document.nametypes value (explicit targets), as Sphinx's StandardDomain.process_doc does. "
+        "R8 slug registry: every key stored into the mapping saved as env.metadata[doc]['myst_slugs'] was tested absent from "
+        "that mapping - the uniquifier (compute_unique_slug, helpers followed) is handed the registry and every value it "
+        "returns is, on every path, a name for which `name not in registry` was the last decided membership fact - so no "
+        "heading's (slug -> section id, title) entry is overwritten. "
+        "R9 label keys: keys looked up in the std domain's labels / anonlabels are lower-cased on every flow "
+        "(flow-sensitive, through parameters, their defaults and all call sites)."
     ),
     "not_decided": (
-        "URI correctness as a value (make_refnode/get_relative_uri, relfn2path and path2doc are Sphinx functions evaluated at "
-        "run time); which registry entry a given name resolves to; slug values (C10); behaviour of other domains' "
-        "resolve_any_xref; nitpick_ignore filtering inside log_warning"
+        "URI correctness as a value (make_refnode/get_relative_uri, relfn2path, path2doc and docname_join are Sphinx functions "
+        "evaluated at run time); which registry entry a given name resolves to and the priority among several matches; slug "
+        "values themselves (C10); the behaviour of other domains' resolve_any_xref and of intersphinx inventories; the effect "
+        "of the relative-docs include option on destinations; the wording of renderer-side warnings; state kept across "
+        "builds other than the suppression paths of log_warning (C15); an unguarded constant slice of a destination is "
+        "listed, not judged (R6)"
     ),
     "trusted_base": [
         "CPython ast",
-        "engine CFG (flow.py)",
+        "engine CFG (flow.py) and call graph (callgraph.py, used for parameter kinds in R4/R8/R9)",
         "Sphinx API roles: make_refnode(builder, fromdocname, todocname, targetid, child), docname_join(basedocname, docname), "
         "Domain.resolve_any_xref(env, fromdocname, builder, target, node, contnode), Domain.resolve_xref(env, fromdocname, builder, typ, target, node, contnode), "
-        "BuildEnvironment.path2doc returns None for a non-source file",
+        "BuildEnvironment.path2doc returns None for a non-source file, relfn2path(filename, docname)",
+        "Sphinx stores std-domain label names lower-cased (docutils-normalised names) and skips non-explicit names in StandardDomain.process_doc",
+        "markdown-it's normalizeLink percent-encodes hrefs; normalizeLinkText decodes them",
+        "tables in the module: NULLABLE_EXTERNALS, NODE_CONSUMERS, FILE_TESTS / EXIST_TESTS, ROLE_SITES",
     ],
     "assumptions": [
         "docutils Node objects are always truthy (so `not newnode` means `newnode is None`)",
         "third-party domains' resolve_any_xref/resolve_xref do not replace the pending node themselves",
         "env.docname is the document being resolved while the post-transform runs",
+        "a 'may answer None' lookup that answers is a real (truthy) answer",
+        "the nitpick_ignore configuration is recognised by its attribute names (nitpick_ignore, nitpick_ignore_regex)",
     ],
 }
 
@@ -1299,6 +1330,87 @@ def _count_rule(rep: Report, rule_id: str, fi: FunctionInfo, weight, start, what
     return n
 
 
+def _class_const(corpus: Corpus, fi: FunctionInfo, e: ast.expr):
+    """Value node of `self.NAME` / `cls.NAME` / `Class.NAME` / module NAME when NAME is bound once to a literal."""
+    name = None
+    if isinstance(e, ast.Attribute) and isinstance(e.value, ast.Name):
+        name = e.attr
+        ci = owner_class(corpus, fi) if e.value.id in ("self", "cls") else fi.module.classes.get(e.value.id)
+        if ci is not None:
+            for c in corpus.mro(ci):
+                for st in c.node.body:
+                    tg = st.targets[0] if isinstance(st, ast.Assign) and len(st.targets) == 1 else (st.target if isinstance(st, ast.AnnAssign) else None)
+                    if isinstance(tg, ast.Name) and tg.id == name and getattr(st, "value", None) is not None:
+                        return st.value
+        return None
+    if isinstance(e, ast.Name):
+        if assignments_to(fi, e.id):
+            defs = assignments_to(fi, e.id)
+            return defs[0][1] if len(defs) == 1 and defs[0][2] is None else None
+        return fi.module.const_nodes.get(e.id)
+    return None
+
+
+def _dispatch_names(corpus: Corpus, fi: FunctionInfo, call: ast.Call) -> list[str] | None:
+    """`getattr(self, TABLE[key])(...)` / `getattr(self, TABLE.get(key))(...)` with TABLE a literal dict of method
+    names, or `getattr(self, "name")(...)`: the method names that can be called."""
+    f = call.func
+    if not (isinstance(f, ast.Call) and isinstance(f.func, ast.Name) and f.func.id == "getattr" and len(f.args) >= 2 and isinstance(f.args[0], ast.Name) and f.args[0].id == "self"):
+        return None
+    sel = f.args[1]
+    if isinstance(sel, ast.Constant) and isinstance(sel.value, str):
+        return [sel.value]
+    tab = None
+    if isinstance(sel, ast.Subscript):
+        tab = sel.value
+    elif isinstance(sel, ast.Call) and isinstance(sel.func, ast.Attribute) and sel.func.attr == "get" and len(sel.args) == 1:
+        tab = sel.func.value
+    if tab is None:
+        raise Unsupported(f"{fi.qualname}: dynamic dispatch `{short(call, 60)}` not understood")
+    lit = _class_const(corpus, fi, tab)
+    if not isinstance(lit, ast.Dict) or not lit.values or not all(isinstance(v, ast.Constant) and isinstance(v.value, str) for v in lit.values):
+        raise Unsupported(f"{fi.qualname}: dispatch table `{unparse(tab)}` is not a literal dict of method names")
+    return [v.value for v in lit.values]
+
+
+FILE_TESTS = {"is_file", "isfile"}
+EXIST_TESTS = {"exists", "lexists", "access", "is_dir", "isdir", "stat"}
+
+
+def _file_predicates(fi: FunctionInfo, e: ast.AST, depth: int = 0, seen: frozenset = frozenset()) -> set[str]:
+    """File-system predicates a truthy fact rests on: calls in the expression, in the values bound to the names it
+    reads, and in the guards under which those values were bound (`if exists(p): path = Path(p)` ... `if path:`)."""
+    out: set[str] = set()
+    if depth > 4:
+        return out
+    for x in ast.walk(e):
+        if isinstance(x, ast.Call):
+            nm = x.func.attr if isinstance(x.func, ast.Attribute) else (x.func.id if isinstance(x.func, ast.Name) else "")
+            if nm in FILE_TESTS | EXIST_TESTS:
+                out.add(nm)
+            else:
+                lc = _local_callee(fi, x)
+                if lc is not None and depth < 3 and not lc[0].is_lambda:
+                    # a predicate helper: what its return values rest on
+                    for r in lc[0].local_nodes():
+                        if isinstance(r, ast.Return) and r.value is not None:
+                            out |= _file_predicates(lc[0], r.value, depth + 1, frozenset())
+        elif isinstance(x, ast.Name) and isinstance(x.ctx, ast.Load) and x.id not in seen:
+            cfg = get_cfg(fi)
+            for st, val, pos in assignments_to(fi, x.id):
+                if isinstance(val, ast.Constant):
+                    continue
+                out |= _file_predicates(fi, val, depth + 1, seen | {x.id})
+                if st is not None:
+                    try:
+                        for t, pol in cfg.guards(cfg.stmt_of(st)):
+                            if pol:
+                                out |= _file_predicates(fi, t, depth + 1, seen | {x.id})
+                    except Unsupported:
+                        pass
+    return out
+
+
 def _wrap_ctor(call: ast.Call, fi: FunctionInfo) -> str | None:
     full = fi.module.resolve(dotted(call.func) or "")
     if full in ("sphinx.addnodes.pending_xref", "sphinx.addnodes.download_reference"):
@@ -1324,6 +1436,15 @@ def r1_classification_totality(corpus: Corpus, rep: Report, tier: str):
     pw = corpus.func(f"{SPHINX_R}._process_wrap_node")
 
     def sink_name(call: ast.Call, fi: FunctionInfo) -> str | None:
+        names = _dispatch_names(corpus, fi, call)
+        if names is not None:
+            ci = owner_class(corpus, fi)
+            missing = [x for x in names if ci is None or corpus.lookup_method(ci, x) is None]
+            if missing:
+                raise Unsupported(f"{fi.qualname}: dispatch table names {missing}, which are not methods of the renderer")
+            if all(x.startswith("render_link") and x != fi.name for x in names):
+                return "|".join(sorted(names))
+            return None
         nm = self_call_name(call)
         if nm is None and isinstance(call.func, ast.Attribute) and dotted(call.func.value) == "super()":
             nm = call.func.attr
@@ -1404,6 +1525,28 @@ def r1_classification_totality(corpus: Corpus, rep: Report, tier: str):
             else:
                 bad = [d for d, kd in zip(defs, kinds) if not kd]
                 rep.violation("C12.R1", k, fi.module.site(call), f"`{a.id}` can hold something other than a fresh pending_xref/download_reference" + (f" (`{short(bad[0][1], 50)}`)" if bad else " (no binding)"))
+    # a destination is classified as a local file (download) only after a regular-file test
+    for fi in handlers:
+        ctors = [c for c in fi.local_nodes() if isinstance(c, ast.Call) and _wrap_ctor(c, fi)]
+        project_wide = [c for c in ctors if _wrap_ctor(c, fi) == "pending_xref" and "refdomain" in _ctor_keys(fi, c) and isinstance(_ctor_keys(fi, c)["refdomain"], ast.Constant) and _ctor_keys(fi, c)["refdomain"].value is None]
+        if not project_wide:
+            continue  # e.g. the explicit path: scheme - no classification to make
+        cfg = get_cfg(fi)
+        for c in ctors:
+            if _wrap_ctor(c, fi) != "download_reference":
+                continue
+            preds: set[str] = set()
+            for t, pol in all_guards(cfg, c):
+                if pol:
+                    preds |= _file_predicates(fi, t)
+            k = f"{fi.fq}|download_reference|only for an existing regular file"
+            site = fi.module.site(c)
+            if preds & FILE_TESTS:
+                rep.ok("C12.R1", k, site, f"under {sorted(preds & FILE_TESTS)}")
+            elif preds & EXIST_TESTS:
+                rep.violation("C12.R1", k, site, f"the destination is treated as a local non-document file after an existence test only ({sorted(preds & EXIST_TESTS)}), not a regular-file test: a destination that names an existing directory becomes a download_reference instead of going to project-wide (document / label) resolution")
+            else:
+                rep.error("C12.R1", f"{fi.qualname}: the download_reference outcome is not under a recognisable file test")
     # _process_wrap_node: attach once, inner once, children rendered iff explicit
     rep.saw_function(pw.fq)
     params = pw.params
@@ -1815,6 +1958,75 @@ def _reader_attrs(corpus: Corpus, fi: FunctionInfo, var: str, ctx: str, seen: se
                     _reader_attrs(corpus, callee, p, ctx_at(n), seen, out)
 
 
+def _local_callee(fi: FunctionInfo, call: ast.Call) -> tuple[FunctionInfo, object] | None:
+    """(function, owning class or None) for calls of module functions, `Class.method`, `self.method`, `cls.method`
+    defined in the same module (no corpus needed)."""
+    m = fi.module
+    f = call.func
+    if isinstance(f, ast.Name) and f.id in m.functions and not assignments_to(fi, f.id):
+        return m.functions[f.id], None
+    if isinstance(f, ast.Attribute) and isinstance(f.value, ast.Name):
+        ci = None
+        if f.value.id in ("self", "cls"):
+            o = fi
+            while o is not None and o.cls is None:
+                o = o.parent_func
+            ci = o.cls if o is not None else None
+        elif f.value.id in m.classes:
+            ci = m.classes[f.value.id]
+        if ci is not None and f.attr in ci.methods:
+            return ci.methods[f.attr], ci
+    return None
+
+
+def _class_fields(ci) -> list[str]:
+    return [st.target.id for st in ci.node.body if isinstance(st, ast.AnnAssign) and isinstance(st.target, ast.Name)]
+
+
+def _returned_elements(callee: FunctionInfo, ci) -> list[list[ast.expr]] | None:
+    """Per return statement, the element expressions of the returned tuple / NamedTuple / dataclass instance."""
+    out = []
+    for n in callee.local_nodes():
+        if not isinstance(n, ast.Return) or n.value is None:
+            continue
+        v = n.value
+        if isinstance(v, ast.Tuple):
+            out.append(list(v.elts))
+        elif isinstance(v, ast.Call) and isinstance(v.func, ast.Name) and (v.func.id == "cls" or v.func.id in callee.module.classes):
+            cls_ci = ci if v.func.id == "cls" else callee.module.classes[v.func.id]
+            fields = _class_fields(cls_ci) if cls_ci is not None else []
+            elts = list(v.args)
+            for kw in v.keywords:
+                if kw.arg is None or kw.arg not in fields or fields.index(kw.arg) != len(elts):
+                    return None
+                elts.append(kw.value)
+            out.append(elts)
+        else:
+            out.append([v])
+    return out or None
+
+
+def _helper_element_parts(fi: FunctionInfo, call: ast.Call, depth: int) -> tuple[list[set[str]], object] | None:
+    lc = _local_callee(fi, call)
+    if lc is None or depth > 6:
+        return None
+    callee, ci = lc
+    rets = _returned_elements(callee, ci)
+    if not rets or len({len(r) for r in rets}) != 1:
+        return None
+    n = len(rets[0])
+    parts: list[set[str]] = [set() for _ in range(n)]
+    for r in rets:
+        for i, el in enumerate(r):
+            parts[i] |= _hash_part(callee, el, depth + 1)
+    # the class whose instance is returned (for attribute access by field name)
+    ret_cls = None
+    for node in callee.local_nodes():
+        if isinstance(node, ast.Return) and isinstance(node.value, ast.Call) and isinstance(node.value.func, ast.Name):
+            ret_cls = ci if node.value.func.id == "cls" else callee.module.classes.get(node.value.func.id)
+    return parts, ret_cls
+
+
 def _hash_part(fi: FunctionInfo, e: ast.expr | None, depth: int = 0, busy: frozenset = frozenset()) -> set[str]:
     """Which part of the link destination an expression holds: PATH (before '#'), ID (after '#'),
     WHOLE (unsplit href), NONE/CONST, or ? (not understood). SPLIT/IDLIST are intermediate."""
@@ -1847,6 +2059,16 @@ def _hash_part(fi: FunctionInfo, e: ast.expr | None, depth: int = 0, busy: froze
         if isinstance(e.slice, ast.Slice) and inner <= {"WHOLE", "PATH", "ID"}:
             return inner  # prefix stripping such as destination[8:]
         return {"?"}
+    if isinstance(e, ast.Attribute) and isinstance(e.value, ast.Name) and e.value.id not in ("self", "cls"):
+        # field of a NamedTuple / small record returned by a splitting helper
+        defs = assignments_to(fi, e.value.id)
+        out = set()
+        for _, val, pos in defs:
+            hp = _helper_element_parts(fi, val, depth) if (pos is None and isinstance(val, ast.Call)) else None
+            if hp is None or hp[1] is None or e.attr not in _class_fields(hp[1]):
+                return {"?"}
+            out |= hp[0][_class_fields(hp[1]).index(e.attr)]
+        return out or {"?"}
     if isinstance(e, ast.Name):
         if e.id in busy:
             return set()  # `x = x or None`: the self-reference adds nothing
@@ -1855,6 +2077,11 @@ def _hash_part(fi: FunctionInfo, e: ast.expr | None, depth: int = 0, busy: froze
             return {"?"}
         out = set()
         for _, val, pos in defs:
+            if isinstance(pos, int) and isinstance(val, ast.Call):
+                hp = _helper_element_parts(fi, val, depth)
+                if hp is not None and pos < len(hp[0]):
+                    out |= hp[0][pos]
+                    continue
             inner = _hash_part(fi, val, depth + 1, busy | {e.id})
             if pos is None:
                 out |= inner
@@ -1900,7 +2127,7 @@ def r5_writer_reader_agreement(corpus: Corpus, rep: Report, tier: str):
     sh = _shape(corpus)
     readers: dict[tuple[str, str], str] = {}
     _reader_attrs(corpus, sh.run, sh.var, "any", set(), readers)
-    if not any(a == "reftargetid" for a, _ in readers) or len(readers) < 4:
+    if not any(a == "reftype" for a, _ in readers):
         raise Unsupported(f"reader set of the resolver not understood: {sorted(readers)}")
     for (a, c), site in sorted(readers.items()):
         rep.listed("C12.R5", f"reader|{a}|{c}", site, "subscripted (KeyError if the writer omits it)")
@@ -2003,7 +2230,7 @@ def r5_writer_reader_agreement(corpus: Corpus, rep: Report, tier: str):
                     rep.violation("C12.R5", k2, fi.module.site(call), f"relfn2path resolves relative to `{unparse(b)}` ({sorted(kinds)}), not to the referencing document")
     if n_rel < 2:
         rep.error("C12.R5", f"only {n_rel} relfn2path call(s) found in the link handlers")
-    rep.expect_min("C12.R5", 26, "4 writers x required attributes + value roles + relfn2path + decoded href values")
+    rep.expect_min("C12.R5", 20, "4 writers x required attributes + value roles + relfn2path + decoded href values")
 
 
 # ---------------------------------------------------------------------------
@@ -2100,6 +2327,19 @@ def r6_prefix_removal_exact(corpus: Corpus, rep: Report, tier: str):
 # R7 the document-local '#' table that pre-empts project-wide resolution holds explicit targets only
 
 
+def _nametypes_flags(fi: FunctionInfo) -> set[str]:
+    """Names bound to the explicit-flag while iterating `<doc>.nametypes.items()` (for loop or comprehension)."""
+    out = set()
+    for n in fi.local_nodes():
+        if isinstance(n, (ast.For, ast.comprehension)):
+            it = n.iter
+            if isinstance(it, ast.Call) and isinstance(it.func, ast.Attribute) and it.func.attr == "items" and isinstance(it.func.value, ast.Attribute) and it.func.value.attr == "nametypes":
+                tg = n.target
+                if isinstance(tg, ast.Tuple) and len(tg.elts) == 2 and isinstance(tg.elts[1], ast.Name):
+                    out.add(tg.elts[1].id)
+    return out
+
+
 def _from_nametypes(fi: FunctionInfo, e: ast.expr, store: ast.AST, depth: int = 0) -> bool:
     """Does the (truthy) expression say "this name is an explicit target" - i.e. is it a value of document.nametypes?"""
     if depth > 4:
@@ -2109,18 +2349,53 @@ def _from_nametypes(fi: FunctionInfo, e: ast.expr, store: ast.AST, depth: int = 
     if isinstance(e, ast.Call) and isinstance(e.func, ast.Attribute) and e.func.attr == "get" and isinstance(e.func.value, ast.Attribute) and e.func.value.attr == "nametypes":
         return True
     if isinstance(e, ast.Name):
+        if e.id in _nametypes_flags(fi):
+            return True
         for st, val, pos in assignments_to(fi, e.id):
-            if pos == "iter":
-                # loop target: for NAME, FLAG in <doc>.nametypes.items()
-                loop = st if isinstance(st, ast.For) else None
-                it = val
-                if isinstance(it, ast.Call) and isinstance(it.func, ast.Attribute) and it.func.attr == "items" and isinstance(it.func.value, ast.Attribute) and it.func.value.attr == "nametypes":
-                    tg = loop.target if loop is not None else None
-                    if isinstance(tg, ast.Tuple) and len(tg.elts) == 2 and isinstance(tg.elts[1], ast.Name) and tg.elts[1].id == e.id:
-                        return True
-            elif pos is None and _from_nametypes(fi, val, store, depth + 1):
+            if pos is None and _from_nametypes(fi, val, store, depth + 1):
                 return True
     return False
+
+
+def _has_handoff(corpus: Corpus, f: FunctionInfo, depth: int = 0) -> bool:
+    for c in f.local_nodes():
+        if isinstance(c, ast.Call):
+            if f.module.resolve(dotted(c.func) or "") == "sphinx.addnodes.pending_xref":
+                return True
+            callee = self_callee(corpus, f, c)
+            if callee is not None and depth < 3 and callee.fq != f.fq and _has_handoff(corpus, callee, depth + 1):
+                return True
+    return False
+
+
+def _table_stores(corpus: Corpus, f: FunctionInfo, tname: str, depth: int = 0) -> list[tuple[FunctionInfo, ast.AST]]:
+    """Where the entries of the table held in local ``tname`` are written: direct stores, or - when the table is
+    produced by a helper - the stores / dict displays behind the helper's returned value."""
+    out: list[tuple[FunctionInfo, ast.AST]] = []
+    for n in f.local_nodes():
+        if isinstance(n, ast.Subscript) and isinstance(n.ctx, ast.Store) and isinstance(n.value, ast.Name) and n.value.id == tname:
+            out.append((f, n))
+        elif isinstance(n, ast.Call) and isinstance(n.func, ast.Attribute) and n.func.attr in ("setdefault", "update") and isinstance(n.func.value, ast.Name) and n.func.value.id == tname:
+            out.append((f, n))
+    for _, val, pos in assignments_to(f, tname):
+        if pos is not None:
+            continue
+        if isinstance(val, ast.DictComp):
+            out.append((f, val.key))
+        elif isinstance(val, ast.Call) and depth < 3:
+            callee = self_callee(corpus, f, val)
+            if callee is None:
+                lc = _local_callee(f, val)
+                callee = lc[0] if lc else None
+            if callee is None or callee.is_lambda:
+                continue
+            for r in callee.local_nodes():
+                if isinstance(r, ast.Return) and r.value is not None:
+                    if isinstance(r.value, ast.Name):
+                        out.extend(_table_stores(corpus, callee, r.value.id, depth + 1))
+                    elif isinstance(r.value, ast.DictComp):
+                        out.append((callee, r.value.key))
+    return out
 
 
 @rule("C12.R7")
@@ -2128,13 +2403,16 @@ def r7_local_table_explicit_only(corpus: Corpus, rep: Report, tier: str):
     rep.rule("C12.R7", "the table of local targets that ResolveAnchorIds consults before handing a '#name' link to project-wide resolution is filled under a `nametypes[name]` (explicit target) guard only")
     fi = corpus.func("mdit_to_docutils.transforms:ResolveAnchorIds.apply")
     rep.saw_function(fi.fq)
-    cfg = get_cfg(fi)
-    xrefs = [c for c in fi.local_nodes() if isinstance(c, ast.Call) and fi.module.resolve(dotted(c.func) or "") == "sphinx.addnodes.pending_xref"]
-    if not xrefs:
-        raise Unsupported("ResolveAnchorIds.apply: no pending_xref hand-off found")
-    # tables consulted with `in` inside the loop that contains the hand-off, and filled in this function
+    sites = []
+    for c in fi.local_nodes():
+        if isinstance(c, ast.Call):
+            callee = self_callee(corpus, fi, c)
+            if fi.module.resolve(dotted(c.func) or "") == "sphinx.addnodes.pending_xref" or (callee is not None and _has_handoff(corpus, callee)):
+                sites.append(c)
+    if not sites:
+        raise Unsupported("ResolveAnchorIds.apply: no pending_xref hand-off found (directly or in a helper)")
     loop = None
-    x = parent(xrefs[0])
+    x = parent(sites[0])
     while x is not None:
         if isinstance(x, ast.For):
             loop = x
@@ -2146,45 +2424,264 @@ def r7_local_table_explicit_only(corpus: Corpus, rep: Report, tier: str):
     for n in ast.walk(loop):
         if isinstance(n, ast.Compare) and len(n.ops) == 1 and isinstance(n.ops[0], (ast.In, ast.NotIn)) and isinstance(n.comparators[0], ast.Name):
             tables.add(n.comparators[0].id)
-    stores = [n for n in fi.local_nodes() if isinstance(n, ast.Subscript) and isinstance(n.ctx, ast.Store) and isinstance(n.value, ast.Name) and n.value.id in tables]
-    stores += [c for c in fi.local_nodes() if isinstance(c, ast.Call) and isinstance(c.func, ast.Attribute) and c.func.attr in ("setdefault", "update") and isinstance(c.func.value, ast.Name) and c.func.value.id in tables]
     n_judged = 0
-    for st in stores:
-        tname = st.value.id if isinstance(st, ast.Subscript) else st.func.value.id
-        k = f"{fi.fq}|{tname}[...] = ...|only for explicit targets"
-        site = fi.module.site(st)
-        gs = all_guards(cfg, st)
-        n_judged += 1
-        if any(pol and _from_nametypes(fi, t, st) for t, pol in gs):
-            rep.ok("C12.R7", k, site, "dominated by a truthy document.nametypes value")
-            continue
-        if any((not pol) and _from_nametypes(fi, t, st) for t, pol in gs):
-            rep.violation("C12.R7", k, site, f"`{short(parent(st), 50)}` is reached only for names whose nametypes flag is FALSE: the local table holds the implicit names instead of the explicit targets")
-            continue
-        # a filter inside the iterated expression (comprehension over nametypes) is a guard too
-        filt = False
-        x = parent(st)
-        while x is not None and x is not fi.node:
-            if isinstance(x, ast.For):
-                for c in ast.walk(x.iter):
-                    if isinstance(c, ast.comprehension) and any(isinstance(a, ast.Attribute) and a.attr == "nametypes" for a in ast.walk(c.iter)) and c.ifs:
-                        filt = True
-            x = parent(x)
-        if filt:
-            rep.ok("C12.R7", k, site, "iterates a filtered view of document.nametypes")
-            continue
-        rep.violation(
-            "C12.R7",
-            k,
-            site,
-            f"`{short(parent(st), 50)}` fills the table of local '#' targets without a `document.nametypes[name]` (explicit target) guard: implicit heading names pre-empt project-wide labels of the same name and un-anchored headings become '#' targets (Sphinx's StandardDomain.process_doc skips `not explicit` names)",
-        )
+    for tname in sorted(tables):
+        for f, st in _table_stores(corpus, fi, tname):
+            rep.saw_function(f.fq)
+            cfg = get_cfg(f)
+            k = f"{f.fq}|{tname}[...] = ...|only for explicit targets"
+            site = f.module.site(st)
+            gs = all_guards(cfg, st)
+            n_judged += 1
+            if any(pol and _from_nametypes(f, t, st) for t, pol in gs):
+                rep.ok("C12.R7", k, site, "dominated by a truthy document.nametypes value")
+                continue
+            if any((not pol) and _from_nametypes(f, t, st) for t, pol in gs):
+                rep.violation("C12.R7", k, site, f"`{short(parent(st), 50)}` is reached only for names whose nametypes flag is FALSE: the local table holds the implicit names instead of the explicit targets")
+                continue
+            # a filter inside the iterated expression (comprehension over nametypes) is a guard too
+            filt = False
+            x = parent(st)
+            while x is not None and x is not f.node:
+                if isinstance(x, ast.For):
+                    for c in ast.walk(x.iter):
+                        if isinstance(c, ast.comprehension) and any(isinstance(a, ast.Attribute) and a.attr == "nametypes" for a in ast.walk(c.iter)) and c.ifs:
+                            filt = True
+                x = parent(x)
+            if filt:
+                rep.ok("C12.R7", k, site, "iterates a filtered view of document.nametypes")
+                continue
+            rep.violation(
+                "C12.R7",
+                k,
+                site,
+                f"`{short(parent(st), 50)}` fills the table of local '#' targets without a `document.nametypes[name]` (explicit target) guard: implicit heading names pre-empt project-wide labels of the same name and un-anchored headings become '#' targets (Sphinx's StandardDomain.process_doc skips `not explicit` names)",
+            )
     if n_judged == 0:
-        raise Unsupported("ResolveAnchorIds.apply: no local target table filled in the function")
+        raise Unsupported("ResolveAnchorIds.apply: no local target table filled in the transform")
     rep.expect_min("C12.R7", 1, "explicit[name] = (labelid, implicit_title)")
 
 
-RULES = [r1_classification_totality, r2_resolver_totality, r3_exactly_one_warning, r4_from_to_roles, r5_writer_reader_agreement, r6_prefix_removal_exact, r7_local_table_explicit_only]
+# ---------------------------------------------------------------------------
+# R8 the slug registry ('myst_slugs') never has an entry overwritten: stored keys were tested absent
+
+
+def _returns_verified_absent(corpus: Corpus, callee: FunctionInfo, reg_param: str, depth: int = 0) -> list[tuple[ast.AST, str]]:
+    """Return statements of ``callee`` whose value was NOT tested absent from ``reg_param`` on some path: [(node, why)]."""
+    bad: list[tuple[ast.AST, str]] = []
+    en = Enumerator(corpus, callee, None)
+    cfg = en.cfg
+    stops = [p for p in cfg.pred.get(EXIT, []) if isinstance(p, ast.Return)]
+    if not stops:
+        raise Unsupported(f"{callee.qualname}: no return statement")
+    # (an exit without `return` hands back None, which is not a slug: nothing to verify there)
+    seen = set()
+    for stop, st in en.paths(ENTRY, stops):
+        v = stop.value
+        if isinstance(v, ast.Name):
+            want = f"{v.id} in {reg_param}"
+            if any(k[0] == want and k[1] is False for k in st.known):
+                continue
+            why = f"`{v.id}` reaches `return {v.id}` on a path where `{v.id} not in {reg_param}` was not established"
+        elif isinstance(v, ast.Call) and depth < 2:
+            g = get_callgraph(corpus)
+            tg = [t for t in g.flat_targets(g.resolve_call(v, callee))]
+            sub_bad = None
+            if len(tg) == 1 and not tg[0].is_lambda:
+                sub = tg[0]
+                # which parameter of the inner helper receives the registry
+                inner = None
+                shift = 1 if sub.params and sub.params[0] in ("self", "cls") else 0
+                for i, a in enumerate(v.args):
+                    if isinstance(a, ast.Name) and a.id == reg_param and i + shift < len(sub.params):
+                        inner = sub.params[i + shift]
+                for kw in v.keywords:
+                    if isinstance(kw.value, ast.Name) and kw.value.id == reg_param and kw.arg in sub.params:
+                        inner = kw.arg
+                if inner is not None:
+                    sub_bad = _returns_verified_absent(corpus, sub, inner, depth + 1)
+            if sub_bad == []:
+                continue
+            why = f"`{short(v, 40)}` is returned without having been tested against `{reg_param}`" if sub_bad is None else sub_bad[0][1]
+        else:
+            why = f"`return {short(v, 40) if v is not None else ''}` hands back a value that was never tested against `{reg_param}`"
+        if id(stop) not in seen:
+            seen.add(id(stop))
+            bad.append((stop, why))
+    return bad
+
+
+@rule("C12.R8")
+def r8_slug_registry_no_overwrite(corpus: Corpus, rep: Report, tier: str):
+    rep.rule("C12.R8", "keys stored into the per-document slug registry (env.metadata[doc]['myst_slugs']) were tested absent from it: no heading's entry is overwritten by a later heading")
+    fin = corpus.func(f"{BASE_R}._render_finalise")
+    reg = None
+    for n in fin.local_nodes():
+        if isinstance(n, ast.Assign) and any(isinstance(t, ast.Subscript) and isinstance(t.slice, ast.Constant) and t.slice.value == "myst_slugs" for t in n.targets):
+            reg = dotted(n.value)
+    if not reg or not reg.startswith("self."):
+        raise Unsupported("_render_finalise: the value stored as 'myst_slugs' is not an attribute of the renderer")
+    n = 0
+    for m in corpus.cls(BASE_R).methods.values():
+        for st in m.local_nodes():
+            if not (isinstance(st, ast.Subscript) and isinstance(st.ctx, ast.Store) and dotted(st.value) == reg):
+                continue
+            n += 1
+            rep.saw_function(m.fq)
+            key = st.slice
+            k = f"{m.fq}|{reg}[{unparse(key)}] = ...|key tested absent"
+            site = m.module.site(st)
+            cfg = get_cfg(m)
+            # (a) a local `key not in registry` guard
+            if any(isinstance(t, ast.Compare) and len(t.ops) == 1 and unparse(t.left) == unparse(key) and dotted(t.comparators[0]) == reg and ((isinstance(t.ops[0], ast.NotIn) and pol) or (isinstance(t.ops[0], ast.In) and not pol)) for t, pol in all_guards(cfg, st)):
+                rep.ok("C12.R8", k, site, "guarded by a membership test")
+                continue
+            # (b) the key comes from a uniquifier that was handed the registry
+            if not isinstance(key, ast.Name):
+                rep.violation("C12.R8", k, site, f"the key `{unparse(key)}` is computed in place and never tested against {reg}")
+                continue
+            defs = [(s_, v, p_) for s_, v, p_ in assignments_to(m, key.id)]
+            problems = []
+            for s_, v, p_ in defs:
+                if not (p_ is None and isinstance(v, ast.Call)):
+                    problems.append(f"`{key.id}` is bound to `{short(v, 40)}`, which is not a uniquifier call")
+                    continue
+                g = get_callgraph(corpus)
+                tg = g.flat_targets(g.resolve_call(v, m))
+                if len(tg) != 1 or tg[0].is_lambda:
+                    raise Unsupported(f"{m.qualname}: cannot resolve the producer of the slug `{short(v, 40)}`")
+                callee = tg[0]
+                shift = 1 if callee.params and callee.params[0] in ("self", "cls") else 0
+                rp = None
+                for i, a in enumerate(v.args):
+                    if dotted(a) == reg and i + shift < len(callee.params):
+                        rp = callee.params[i + shift]
+                for kw in v.keywords:
+                    if dotted(kw.value) == reg and kw.arg in callee.params:
+                        rp = kw.arg
+                if rp is None:
+                    problems.append(f"`{short(v, 50)}` is not given {reg}: uniqueness is checked against something else")
+                    continue
+                rep.saw_function(callee.fq)
+                bad = _returns_verified_absent(corpus, callee, rp)
+                if bad:
+                    site = callee.module.site(bad[0][0])
+                    problems.append(f"{callee.qualname}: {bad[0][1]}")
+            if not defs:
+                problems.append(f"`{key.id}` has no binding in {m.qualname}")
+            if problems:
+                rep.violation("C12.R8", k, site, problems[0] + f" - a repeated or literally numbered heading can take a slug that another heading already owns, and its {reg} entry (doc.md#slug -> section id, title) is overwritten")
+            else:
+                rep.ok("C12.R8", k, site, "every value the uniquifier returns was tested absent from the registry it was given")
+    rep.expect_min("C12.R8", 1, "self._heading_slugs[slug] = ... in generate_heading_target")
+
+
+# ---------------------------------------------------------------------------
+# R9 keys looked up in the std-domain label registries are lower-cased
+
+
+def _case_kind(corpus: Corpus, fi: FunctionInfo, e: ast.expr | None, at, busy: frozenset = frozenset()) -> set[str]:
+    """LOWER (passed through .lower()/.casefold() or a lower-case literal), RAW (as spelled in the link), NONE, ?"""
+    if e is None or len(busy) > 10:
+        return {"?"}
+    if isinstance(e, ast.Constant):
+        if e.value is None:
+            return {"NONE"}
+        return {"LOWER"} if isinstance(e.value, str) and e.value == e.value.lower() else {"RAW"}
+    if isinstance(e, ast.Call) and isinstance(e.func, ast.Attribute) and e.func.attr in ("lower", "casefold") and not e.args:
+        return {"LOWER"}
+    if isinstance(e, ast.Call) and dotted(e.func) in ("cast", "typing.cast", "t.cast", "str") and e.args:
+        return _case_kind(corpus, fi, e.args[-1], at, busy)
+    if isinstance(e, ast.Call) and isinstance(e.func, ast.Attribute) and e.func.attr in ("strip", "lstrip", "rstrip", "replace", "removeprefix", "removesuffix"):
+        return _case_kind(corpus, fi, e.func.value, at, busy)
+    if isinstance(e, ast.BoolOp):
+        out: set[str] = set()
+        for i, v in enumerate(e.values):
+            kd = _case_kind(corpus, fi, v, at, busy)
+            out |= (kd - {"NONE"}) if (isinstance(e.op, ast.Or) and i < len(e.values) - 1) else kd
+        return out
+    if isinstance(e, ast.IfExp):
+        return _case_kind(corpus, fi, e.body, at, busy) | _case_kind(corpus, fi, e.orelse, at, busy)
+    if isinstance(e, ast.Subscript) and isinstance(e.slice, ast.Constant) and isinstance(e.slice.value, str):
+        return {"RAW"}  # an attribute of the node as written
+    if isinstance(e, ast.Name):
+        key = (fi.fq, e.id, id(at))
+        if key in busy:
+            return set()
+        out = set()
+        cfg = get_cfg(fi)
+        defs = _reaching(fi, e.id, at)
+        for d, val, pos in defs:
+            out |= _case_kind(corpus, fi, val, d, busy | {key}) if pos is None else {"?"}
+        owner = fi
+        if e.id in owner.params:
+            # the parameter's entry value reaches `at` unless every path rebinds it first
+            dstmts = [cfg.stmt_of(st) for st, _, _ in assignments_to(fi, e.id) if st is not None]
+            if cfg.paths_avoiding(ENTRY, at, lambda n: any(n is d for d in dstmts if d is not at)):
+                idx = owner.params.index(e.id)
+                shift = 1 if owner.params and owner.params[0] in ("self", "cls") else 0
+                a_ = owner.node.args
+                pos_params = a_.posonlyargs + a_.args
+                default = None
+                nd = len(a_.defaults)
+                if idx < len(pos_params) and idx >= len(pos_params) - nd:
+                    default = a_.defaults[idx - (len(pos_params) - nd)]
+                g = get_callgraph(corpus)
+                sites = g.callers().get(owner.fq, [])
+                if not sites:
+                    out |= {"?"}
+                for cfi, call in sites:
+                    arg = None
+                    p_ = idx - shift
+                    if 0 <= p_ < len(call.args) and not any(isinstance(x, ast.Starred) for x in call.args[: p_ + 1]):
+                        arg = call.args[p_]
+                    for kw in call.keywords:
+                        if kw.arg == e.id:
+                            arg = kw.value
+                    if arg is None:
+                        out |= _case_kind(corpus, owner, default, at, busy | {key}) if default is not None else {"?"}
+                    elif cfi.is_lambda:
+                        out |= {"?"}
+                    else:
+                        out |= _case_kind(corpus, cfi, arg, get_cfg(cfi).stmt_of(call), busy | {key})
+        return out or {"?"}
+    return {"?"}
+
+
+@rule("C12.R9")
+def r9_label_keys_lowercased(corpus: Corpus, rep: Report, tier: str):
+    rep.rule("C12.R9", "keys looked up in the std domain's label registries (labels / anonlabels) are lower-cased on every flow, as Sphinx stores them")
+    ci = corpus.cls(RESOLVER)
+    n = 0
+    for m in ci.methods.values():
+        cfg = None
+        for x in m.local_nodes():
+            key = None
+            reg = None
+            if isinstance(x, ast.Call) and isinstance(x.func, ast.Attribute) and x.func.attr == "get" and isinstance(x.func.value, ast.Attribute) and x.func.value.attr in ("labels", "anonlabels") and x.args:
+                key, reg = x.args[0], x.func.value.attr
+            elif isinstance(x, ast.Subscript) and isinstance(x.ctx, ast.Load) and isinstance(x.value, ast.Attribute) and x.value.attr in ("labels", "anonlabels"):
+                key, reg = x.slice, x.value.attr
+            elif isinstance(x, ast.Compare) and len(x.ops) == 1 and isinstance(x.ops[0], (ast.In, ast.NotIn)) and isinstance(x.comparators[0], ast.Attribute) and x.comparators[0].attr in ("labels", "anonlabels"):
+                key, reg = x.left, x.comparators[0].attr
+            if key is None:
+                continue
+            n += 1
+            rep.saw_function(m.fq)
+            cfg = cfg or get_cfg(m)
+            kinds = _case_kind(corpus, m, key, cfg.stmt_of(x))
+            k = f"{m.fq}|{reg}[{unparse(key)}]|lower-cased key"
+            site = m.module.site(x)
+            if "RAW" in kinds:
+                rep.violation("C12.R9", k, site, f"`{unparse(key)}` can reach the lookup in std-domain `{reg}` as spelled in the link (not lower-cased) on some flow ({sorted(kinds)}): Sphinx stores label names lower-cased, so `[](#My-Label)` / `[text](My-Label)` no longer resolves to the project-wide label")
+            elif "?" in kinds:
+                rep.error("C12.R9", f"{m.qualname}: cannot trace the case of `{unparse(key)}` looked up in {reg} ({sorted(kinds)})")
+            else:
+                rep.ok("C12.R9", k, site, f"{sorted(kinds)}")
+    rep.expect_min("C12.R9", 2, "anonlabels.get(target) and labels.get(target) in _resolve_ref_nested")
+
+
+RULES = [r1_classification_totality, r2_resolver_totality, r3_exactly_one_warning, r4_from_to_roles, r5_writer_reader_agreement, r6_prefix_removal_exact, r7_local_table_explicit_only, r8_slug_registry_no_overwrite, r9_label_keys_lowercased]
 
 
 # ---------------------------------------------------------------------------
@@ -2385,4 +2882,27 @@ def mutants(corpus: Corpus):
         add("c12-warning-only-when-nitpicky", "C12.R3", rf, em, "if self.config.nitpicky:\n" + indent_of(f, em) + "    " + seg, expect="nitpick_ignore match")
     else:
         out.append(("c12-warning-only-when-nitpicky", "emission statement not found"))
+    # --- round-3 seed classes ---
+    # R1: the local-file outcome needs a regular-file test
+    f = sx.func("SphinxRenderer.render_link_unknown")
+    c = find_node(f, lambda n: isinstance(n, ast.Call) and isinstance(n.func, ast.Attribute) and n.func.attr == "is_file")
+    add("c12-file-test-weakened-to-exists", "C12.R1", sx, c, f"{unparse(c.func.value)}.exists()" if c is not None else "", expect="regular file")
+    add("c12-file-test-os-path-exists", "C12.R1", sx, c, f"os.path.exists(str({unparse(c.func.value)}))" if c is not None else "", expect="regular file")
+    # R8: slug registry keys are tested absent
+    f = bs.func("compute_unique_slug")
+    w = find_node(f, lambda n: isinstance(n, ast.While))
+    add("c12-uniquifier-loop-capped", "C12.R8", bs, w.test if w is not None else None, f"{unparse(w.test)} and i < 100" if w is not None else "", expect="key tested absent")
+    r = find_node(f, lambda n: isinstance(n, ast.Return) and isinstance(n.value, ast.Name))
+    add("c12-uniquifier-result-trimmed", "C12.R8", bs, r.value if r is not None else None, f'{unparse(r.value)}.rstrip("-")' if r is not None else "", expect="key tested absent")
+    f = bs.func("DocutilsRenderer.generate_heading_target")
+    c = find_node(f, lambda n: isinstance(n, ast.Call) and unparse(n.func) == "compute_unique_slug")
+    a = next((x for x in c.args if unparse(x) == "self._heading_slugs"), None) if c is not None else None
+    add("c12-uniquifier-given-other-table", "C12.R8", bs, a, "self.document.ids", expect="key tested absent")
+    # R9: label keys are lower-cased
+    f = rf.func("MystReferenceResolver.resolve_myst_ref_any")
+    c = find_node(f, lambda n: isinstance(n, ast.Call) and unparse(n.func) == "self._resolve_ref_nested" and len(n.args) == 2)
+    add("c12-label-lookup-gets-raw-target", "C12.R9", rf, c, f"self._resolve_ref_nested({unparse(c.args[0])}, {unparse(c.args[1])}, target)" if c is not None else "", expect="lower-cased key")
+    f = rf.func("MystReferenceResolver._resolve_ref_nested")
+    c = find_node(f, lambda n: isinstance(n, ast.Call) and isinstance(n.func, ast.Attribute) and n.func.attr == "lower")
+    add("c12-label-lookup-not-lowered", "C12.R9", rf, c, unparse(c.func.value) if c is not None else "", expect="lower-cased key")
     return out
